@@ -30,5 +30,11 @@ class ImportNode(BaseNode):
             node.name = Sign.SEPARATOR.join(path)
             node.indent = self.indent
             node.isource = self.source
+            if env.envtype!=EnvType.DOCS:
+                # an imported node carries its current value and is not resolved again in the importing scope
+                node.value_raw = node.raw_value()
+                node.value_ref = None
+                node.value_fn = None
+                node.value_expr = None
             nodes_new.append(node)
         return nodes_new
